@@ -28,7 +28,12 @@ Cells use the canonical flattened column names (`bind::calculate`, `control::app
 namespace Pyxv.Choices
 open Pyxv Pyxv.Rows
 
-abbrev S (s : String) : Str := s.toList
+open Lean in
+/-- `c!"lit"`: a string literal as an explicit `List Char` literal (so that definitional comparisons of
+    two literals are structural; `"lit".toList` is expensive to reduce) -/
+macro:max "c!" s:str : term => do
+  let cs : Array (TSyntax `term) := (s.getString.toList.map fun c => (⟨(Syntax.mkCharLit c).raw⟩ : TSyntax `term)).toArray
+  `(([$cs,*] : List Char))
 
 /-! ## Python string helpers -/
 
@@ -58,7 +63,7 @@ def isFileExt (e : Str) : Bool := extSet.contains e
 def refAt (s : Str) : Bool :=
   match s with
   | '$' :: '{' :: r =>
-    let r' := if startsWith r (S "last-saved#") then r.drop 11 else r
+    let r' := if startsWith r (c!"last-saved#") then r.drop 11 else r
     (match ncName r' with
      | some ('}' :: _) => true
      | some (':' :: r2) => (match ncName r2 with | some ('}' :: _) => true | _ => false)
@@ -84,7 +89,7 @@ def hasBraceRef : Str → Bool
   | c :: cs => braceAt (c :: cs) || hasBraceRef cs
 
 /-- `has_last_saved` (expression.py 130-140) -/
-def hasLastSaved (v : Str) : Bool := v.length > 14 && isInfix (S "${last-saved#") v && hasRef v
+def hasLastSaved (v : Str) : Bool := v.length > 14 && isInfix (c!"${last-saved#") v && hasRef v
 
 /-! ## 1. `group_dictionaries_by_key` -/
 
@@ -120,28 +125,28 @@ structure Choice where
   extras : Cells
 deriving DecidableEq, Repr, Inhabited
 
-def listKey : Str := S "list_name"
+def listKey : Str := c!"list_name"
 
 /-- `validate_headers`: headers that are empty or contain a space (except the list name column) -/
 def badHeaders (cols : List Str) : List Str :=
   cols.filter fun h => h ≠ listKey && (h.contains ' ' || h.isEmpty)
 
-def isLabelDictKey (k : Str) : Bool := startsWith k (S "label::")
-def isMediaKey (k : Str) : Bool := startsWith k (S "media::")
+def isLabelDictKey (k : Str) : Bool := startsWith k (c!"label::")
+def isMediaKey (k : Str) : Bool := startsWith k (c!"media::")
 
 def isExtraKey (bad : List Str) (k : Str) : Bool :=
-  k ≠ S "name" && k ≠ S "label" && !isLabelDictKey k && !isMediaKey k && k ≠ S "__row" && !bad.contains k
+  k ≠ c!"name" && k ≠ c!"label" && !isLabelDictKey k && !isMediaKey k && k ≠ c!"__row" && !bad.contains k
 
 def labelOf (row : Cells) : Lbl :=
   if row.any (fun kv => isLabelDictKey kv.1) then .dict
-  else match lookup (S "label") row with
+  else match lookup (c!"label") row with
     | some s => .plain s
     | none => .none
 
 /-- `Option(**c)` after `validate_and_clean_choices` popped the invalid headers; `name` defaulted to
     empty only for rows that `validateList` rejects anyway -/
 def choiceOf (bad : List Str) (row : Cells) : Choice :=
-  { name := (lookup (S "name") row).getD [],
+  { name := (lookup (c!"name") row).getD [],
     label := labelOf row,
     media := row.any (fun kv => isMediaKey kv.1),
     extras := row.filter fun kv => isExtraKey bad kv.1 }
@@ -154,13 +159,13 @@ deriving DecidableEq, Repr, Inhabited
 def hasDupName : List Str → List Cells → Bool
   | _, [] => false
   | seen, r :: rs =>
-    match lookup (S "name") r with
+    match lookup (c!"name") r with
     | none => hasDupName seen rs
     | some n => if seen.contains n then true else hasDupName (n :: seen) rs
 
 /-- `validate_choice_list`: a nameless option raises at once; duplicates are raised after the loop -/
 def validateList (allowDup : Bool) (rows : List Cells) : Option ErrK :=
-  if rows.any (fun r => (lookup (S "name") r).isNone) then some .noChoiceName
+  if rows.any (fun r => (lookup (c!"name") r).isNone) then some .noChoiceName
   else if !allowDup && hasDupName [] rows then some .dupChoice
   else none
 
@@ -202,9 +207,9 @@ def requiresItext (cs : List Choice) : Bool :=
 
 /-- `choice_nodes` of `_generate_static_instances` -/
 def itemOf (itext : Bool) (l : Str) (idx : Nat) (c : Choice) : List (Str × Str) :=
-  (if itext then [(S "itextId", l ++ S "-" ++ natToStr idx)] else []) ++ [(S "name", c.name)] ++
+  (if itext then [(c!"itextId", l ++ c!"-" ++ natToStr idx)] else []) ++ [(c!"name", c.name)] ++
   (match itext, c.label with
-   | false, .plain s => [(S "label", s)]
+   | false, .plain s => [(c!"label", s)]
    | _, _ => []) ++ c.extras
 
 /-- `instance_nodes`: `enumerate(choices)` from `i` -/
@@ -220,7 +225,7 @@ structure Inst where
 deriving DecidableEq, Repr, Inhabited
 
 def staticInst (l : Str) (cs : List Choice) : Inst :=
-  { kind := S "choice", name := l, src := none, items := itemsFrom (requiresItext cs) l 0 cs }
+  { kind := c!"choice", name := l, src := none, items := itemsFrom (requiresItext cs) l 0 cs }
 
 /-! ## 4. survey rows: elements in document order, names and their paths -/
 
@@ -245,7 +250,7 @@ def repPaths : List (Str × Bool) → List (List Str)
   | [] => []
   | (n, isRep) :: rest => (if isRep then [framePath ((n, isRep) :: rest)] else []) ++ repPaths rest
 
-def otherRelevant (name : Str) : Str := S "selected(../" ++ name ++ S ", 'other')"
+def otherRelevant (name : Str) : Str := c!"selected(../" ++ name ++ c!", 'other')"
 
 /-- rows → (elements in `iter_descendants` order, name table) -/
 def walk : List (Str × Bool) → List Cells → Except String (List Elem × List NameInfo)
@@ -276,12 +281,12 @@ def walk : List (Str × Bool) → List Cells → Except String (List Elem × Lis
         | none =>
           match matchSelect t with
           | some (sel, ln, other) =>
-            let oname := name ++ S "_other"
-            let extra : List Elem := if other then [.q oname [(S "bind::relevant", otherRelevant name)]] else []
+            let oname := name ++ c!"_other"
+            let extra : List Elem := if other then [.q oname [(c!"bind::relevant", otherRelevant name)]] else []
             let extraN : List NameInfo := if other then [{ name := oname, path := framePath stack ++ [oname], reps }] else []
             (walk stack rs).map fun (es, ns) => (.sel name path reps r sel ln other :: extra ++ es, info :: extraN ++ ns)
           | none =>
-            if t = S "xml-external" || t = S "csv-external" then
+            if t = c!"xml-external" || t = c!"csv-external" then
               (walk stack rs).map fun (es, ns) => (.ext name t :: es, info :: ns)
             else (walk stack rs).map fun (es, ns) => (.q name r :: es, info :: ns)
 
@@ -289,14 +294,14 @@ def walk : List (Str × Bool) → List Cells → Except String (List Elem × Lis
 
 def lastSavedName : Str := ((Pyxv.Gen.itemsetRefs.find? fun p => p.1 = "last_saved").map (·.2.toList)).getD []
 
-def xpathOf (root : Str) (path : List Str) : Str := '/' :: joinWith (S "/") (root :: path)
+def xpathOf (root : Str) (path : List Str) : Str := '/' :: joinWith (c!"/") (root :: path)
 
 /-- `_var_repl_function` when no relative path applies: ` /root/path ` (with `instance('__last-saved')`) -/
 def resolve (root : Str) (tbl : List NameInfo) (ctxReps : List (List Str)) (lastSaved : Bool) (name : Str) : Option Str :=
   match tbl.filter (fun t => t.name = name) with
   | [t] =>
     if !lastSaved && t.reps.any (fun p => ctxReps.contains p) then none
-    else some (S " " ++ (if lastSaved then S "instance('" ++ lastSavedName ++ S "')" else []) ++ xpathOf root t.path ++ S " ")
+    else some (c!" " ++ (if lastSaved then c!"instance('" ++ lastSavedName ++ c!"')" else []) ++ xpathOf root t.path ++ c!" ")
   | _ => none
 
 /-- `re.sub(BRACKETED_TAG_REGEX, _var_repl_function, text)`; `none` = outside the fragment -/
@@ -309,7 +314,7 @@ def insertXpaths (res : Bool → Str → Option Str) : Nat → Str → Option St
       let body := r.takeWhile notBraceEnd
       (match r.drop body.length with
        | '}' :: rest =>
-         let ls := startsWith body (S "last-saved#")
+         let ls := startsWith body (c!"last-saved#")
          let nm := if ls then body.drop 11 else body
          (match res ls nm, insertXpaths res f rest with
           | some x, some y => some (x ++ y)
@@ -346,16 +351,16 @@ structure ItemsetOut where
   label : Str
 deriving DecidableEq, Repr, Inhabited
 
-def bracket (f : Str) : Str := if f.isEmpty then [] else S "[" ++ f ++ S "]"
+def bracket (f : Str) : Str := if f.isEmpty then [] else c!"[" ++ f ++ c!"]"
 
 /-- question.py 417-446: `randomize(… [, seed])` -/
 def wrapRandomize (params : Cells) (seedSub : Str) (nodeset : Str) : Str :=
-  if !params.isEmpty && lookup (S "randomize") params = some (S "true") then
-    let n := S "randomize(" ++ nodeset
-    let n := match lookup (S "seed") params with
-      | some s => if startsWith s (S "${") then n ++ S ", " ++ seedSub else n ++ S ", " ++ s
+  if !params.isEmpty && lookup (c!"randomize") params = some (c!"true") then
+    let n := c!"randomize(" ++ nodeset
+    let n := match lookup (c!"seed") params with
+      | some s => if startsWith s (c!"${") then n ++ c!", " ++ seedSub else n ++ c!", " ++ s
       | none => n
-    n ++ S ")"
+    n ++ c!")"
   else nodeset
 
 /-- question.py 374-446, statement by statement -/
@@ -363,23 +368,23 @@ def itemsetOf (q : SelIn) : ItemsetOut :=
   let se := splitext q.itemset
   let itemset0 := se.1
   let ext := se.2
-  let v0 := if ext = S ".geojson" then gref "value_geojson" else gref "value"
-  let l0 := if ext = S ".geojson" then gref "label_geojson" else gref "label"
-  let v1 := (lookup (S "value") q.params).getD v0
-  let l1 := (lookup (S "label") q.params).getD l0
+  let v0 := if ext = c!".geojson" then gref "value_geojson" else gref "value"
+  let l0 := if ext = c!".geojson" then gref "label_geojson" else gref "label"
+  let v1 := (lookup (c!"value") q.params).getD v0
+  let l1 := (lookup (c!"label") q.params).getD l0
   let isPrev := hasBraceRef q.itemset
   let itemset1 := if isFileExt ext then itemset0 else q.itemset
-  let l2 := if isFileExt ext then l1 else if q.choicesItext then S "jr:itext(itextId)" else l1
+  let l2 := if isFileExt ext then l1 else if q.choicesItext then c!"jr:itext(itextId)" else l1
   if isPrev then
     let path := splitOnChar '/' q.prevSub
-    let nodeset := joinWith (S "/") path.dropLast
+    let nodeset := joinWith (c!"/") path.dropLast
     let leaf := path.getLast?.getD []
     let filt := if !q.filter.isEmpty
-      then pyReplace (pyReplace q.filter (S "current()/" ++ nodeset) (S ".")) nodeset (S ".")
-      else S "./" ++ leaf ++ S " != ''"
+      then pyReplace (pyReplace q.filter (c!"current()/" ++ nodeset) (c!".")) nodeset (c!".")
+      else c!"./" ++ leaf ++ c!" != ''"
     { nodeset := wrapRandomize q.params q.seedSub (nodeset ++ bracket filt), value := leaf, label := leaf }
   else
-    let nodeset := S "instance('" ++ itemset1 ++ S "')/root/item"
+    let nodeset := c!"instance('" ++ itemset1 ++ c!"')/root/item"
     { nodeset := wrapRandomize q.params q.seedSub (nodeset ++ bracket q.filter), value := v1, label := l2 }
 
 /-! ## 7. secondary instances -/
@@ -388,7 +393,7 @@ def pdSpace (c : Char) : Bool := pyIsSpace c
 
 /-- `RE_PULLDATA` = `(pulldata\s*\(\s*)(.*?),` matching at the start of `s`: (group 2, rest after the comma) -/
 def pulldataAt (s : Str) : Option (Str × Str) :=
-  if !startsWith s (S "pulldata") then none else
+  if !startsWith s (c!"pulldata") then none else
   match (s.drop 8).dropWhile pdSpace with
   | '(' :: r1 =>
     let r2 := r1.dropWhile pdSpace
@@ -411,16 +416,16 @@ def extInstKeys : List Str := Pyxv.Gen.externalInstances.map String.toList
 
 /-- `get_pulldata_functions`: bind formulas in sorted key order, then choice_filter, then default -/
 def pulldataUsages (isSection : Bool) (cells : Cells) : List Str :=
-  let has (v : Str) := isInfix (S "pulldata(") v
-  (extInstKeys.filterMap fun k => match lookup (S "bind::" ++ k) cells with
+  let has (v : Str) := isInfix (c!"pulldata(") v
+  (extInstKeys.filterMap fun k => match lookup (c!"bind::" ++ k) cells with
     | some v => if has v then some v else none
     | none => none) ++
   (if isSection then [] else
-    ((match lookup (S "choice_filter") cells with | some v => if has v then [v] else [] | none => []) ++
-     (match lookup (S "default") cells with | some v => if has v then [v] else [] | none => [])))
+    ((match lookup (c!"choice_filter") cells with | some v => if has v then [v] else [] | none => []) ++
+     (match lookup (c!"default") cells with | some v => if has v then [v] else [] | none => [])))
 
 def pulldataInst (fileId : Str) : Inst :=
-  { kind := S "pulldata", name := fileId, src := some (S "jr://file-csv/" ++ fileId ++ S ".csv"), items := [] }
+  { kind := c!"pulldata", name := fileId, src := some (c!"jr://file-csv/" ++ fileId ++ c!".csv"), items := [] }
 
 def pulldataInsts (isSection : Bool) (cells : Cells) : List Inst :=
   (pulldataUsages isSection cells).flatMap fun u => (pulldataArgs u.length u).map pulldataInst
@@ -430,40 +435,40 @@ def fromFileInst (itemset : Str) : Option Inst :=
   if itemset.isEmpty then none else
   let se := splitext itemset
   if isFileExt se.2 then
-    let dir := if se.2 = S ".xml" || se.2 = S ".geojson" then S "file" else S "file-" ++ se.2.drop 1
-    some { kind := S "file", name := se.1, src := some (S "jr://" ++ dir ++ S "/" ++ itemset), items := [] }
+    let dir := if se.2 = c!".xml" || se.2 = c!".geojson" then c!"file" else c!"file-" ++ se.2.drop 1
+    some { kind := c!"file", name := se.1, src := some (c!"jr://" ++ dir ++ c!"/" ++ itemset), items := [] }
   else none
 
 /-- `_generate_external_instances` -/
 def externalInst (name typ : Str) : Inst :=
   let extension := (splitOnChar '-' typ).headD []
-  let pre := if extension = S "csv" then S "file-csv" else S "file"
-  { kind := S "external", name, src := some (S "jr://" ++ pre ++ S "/" ++ name ++ S "." ++ extension), items := [] }
+  let pre := if extension = c!"csv" then c!"file-csv" else c!"file"
+  { kind := c!"external", name, src := some (c!"jr://" ++ pre ++ c!"/" ++ name ++ c!"." ++ extension), items := [] }
 
 def lastSavedInst : Inst :=
-  { kind := S "instance", name := lastSavedName, src := some (S "jr://instance/last-saved"), items := [] }
+  { kind := c!"instance", name := lastSavedName, src := some (c!"jr://instance/last-saved"), items := [] }
 
 /-- `_generate_last_saved_instance` -/
 def wantsLastSaved (cells : Cells) : Bool :=
-  (match lookup (S "default") cells with | some v => hasLastSaved v | none => false) ||
-  (match lookup (S "choice_filter") cells with | some v => hasLastSaved v | none => false) ||
-  cells.any fun kv => extInstKeys.any (fun k => kv.1 = S "bind::" ++ k) && hasLastSaved kv.2
+  (match lookup (c!"default") cells with | some v => hasLastSaved v | none => false) ||
+  (match lookup (c!"choice_filter") cells with | some v => hasLastSaved v | none => false) ||
+  cells.any fun kv => extInstKeys.any (fun k => kv.1 = c!"bind::" ++ k) && hasLastSaved kv.2
 
 /-- `SEARCH_FUNCTION_REGEX` (`search\(.*?\)`) found in an appearance longer than 7 characters -/
 def searchAt (s : Str) : Bool :=
-  startsWith s (S "search(") && (((s.drop 7).dropWhile fun c => c != ')' && c != '\n').head? == some ')')
+  startsWith s (c!"search(") && (((s.drop 7).dropWhile fun c => c != ')' && c != '\n').head? == some ')')
 
 def hasSearchCall : Str → Bool
   | [] => false
   | c :: cs => searchAt (c :: cs) || hasSearchCall cs
 
 def isSearch (cells : Cells) : Bool :=
-  match lookup (S "control::appearance") cells with
+  match lookup (c!"control::appearance") cells with
   | some a => a.length > 7 && hasSearchCall a
   | none => false
 
 /-- a select is a `MultipleChoiceQuestion` unless it is `select one external` (an `InputQuestion`) -/
-def isExternalSel (sel : Str) : Bool := sel = S "select one external"
+def isExternalSel (sel : Str) : Bool := sel = c!"select one external"
 
 /-- `get_element_instances` up to the static part: one pass over the elements -/
 def elemInsts : List Elem → List Inst
@@ -496,7 +501,7 @@ def allInsts (es : List Elem) (lists : List (Str × List Choice)) : List Inst :=
 
 /-- `_validate_external_instances`: names of `external` instances are unique -/
 def externalNamesOk (is : List Inst) : Bool :=
-  let names := (is.filter fun i => i.kind = S "external").map (·.name)
+  let names := (is.filter fun i => i.kind = c!"external").map (·.name)
   names.all fun n => names.count n ≤ 1
 
 def findSeen (name : Str) : List Inst → Option Inst
@@ -522,7 +527,7 @@ def escQ : Str → Str
 def csvCell (s : Str) : Str := '"' :: (escQ s ++ ['"'])
 
 /-- `csv.writer(quoting=QUOTE_ALL).writerow` with the default `\r\n` terminator -/
-def csvRow (cells : List Str) : Str := joinWith (S ",") (cells.map csvCell) ++ ['\r', '\n']
+def csvRow (cells : List Str) : Str := joinWith (c!",") (cells.map csvCell) ++ ['\r', '\n']
 
 def csvText (rows : List (List Str)) : Str := rows.flatMap csvRow
 
@@ -631,15 +636,15 @@ inductive Outcome where
 deriving Repr, Inhabited
 
 def paramsOf (cells : Cells) : Cells :=
-  cells.filterMap fun kv => if startsWith kv.1 (S "parameters::") then some (kv.1.drop 12, kv.2) else none
+  cells.filterMap fun kv => if startsWith kv.1 (c!"parameters::") then some (kv.1.drop 12, kv.2) else none
 
 def hasLabelCell (cells : Cells) : Bool := has cells "label" || hasPrefix cells "label::"
 
 /-- `add_choices_info_to_question`: does the question get `list_name` / `choices`? -/
 def getsChoices (lists : List (Str × List Choice)) (cells : Cells) (sel ln : Str) : Bool :=
-  let filter := (lookup (S "choice_filter") cells).getD []
+  let filter := (lookup (c!"choice_filter") cells).getD []
   if !filter.isEmpty then !isExternalSel sel && (match lookup ln lists with | some cs => !cs.isEmpty | none => false)
-  else !(lookup (S "parameters::randomize") cells = some (S "true") || isFileExt (splitext ln).2 || hasBraceRef ln)
+  else !(lookup (c!"parameters::randomize") cells = some (c!"true") || isFileExt (splitext ln).2 || hasBraceRef ln)
 
 def tagOf (sel : Str) : Str :=
   match typeEntry sel with
@@ -652,7 +657,7 @@ def inlineItems (l : Str) (cs : List Choice) (qHasLabel : Bool) : Option (List (
     | _, [] => some []
     | i, c :: rest =>
       let lab : Option (Bool × Str) :=
-        if itext then some (true, S "jr:itext('" ++ l ++ S "-" ++ natToStr i ++ S "')")
+        if itext then some (true, c!"jr:itext('" ++ l ++ c!"-" ++ natToStr i ++ c!"')")
         else if qHasLabel then (match c.label with | .plain s => some (false, s) | _ => none)
         else some (false, [])
       match lab, go (i + 1) rest with
@@ -664,7 +669,7 @@ def inlineItems (l : Str) (cs : List Choice) (qHasLabel : Bool) : Option (List (
 def selObs (inp : Input) (tbl : List NameInfo) (lists : List (Str × List Choice)) (extLists : List Str)
     (name : Str) (path : List Str) (reps : List (List Str)) (cells : Cells) (sel ln : Str) (other : Bool) : Except String SelObs := do
   if has cells "bind::calculate" || has cells "trigger" then throw "select with calculate / trigger"
-  let filterRaw := (lookup (S "choice_filter") cells).getD []
+  let filterRaw := (lookup (c!"choice_filter") cells).getD []
   let params := paramsOf cells
   let ext := (splitext ln).2
   let isPrev := hasBraceRef ln
@@ -673,22 +678,22 @@ def selObs (inp : Input) (tbl : List NameInfo) (lists : List (Str × List Choice
     | some x => pure x
     | none => throw "reference outside the absolute fragment"
   let otherObs : Option (Str × Str × Str) :=
-    if other then some (otherRelevant name, S "string", S "Specify other.") else none
+    if other then some (otherRelevant name, c!"string", c!"Specify other.") else none
   -- parameters (xls2json.py 1092-1131)
-  if params.any (fun kv => kv.1 ≠ S "randomize" && kv.1 ≠ S "seed" && kv.1 ≠ S "value" && kv.1 ≠ S "label") then throw "parameter"
-  match lookup (S "randomize") params with
-  | some v => if v ≠ S "true" && v ≠ S "false" then throw "randomize value"
-  | none => if (lookup (S "seed") params).isSome then throw "seed without randomize"
+  if params.any (fun kv => kv.1 ≠ c!"randomize" && kv.1 ≠ c!"seed" && kv.1 ≠ c!"value" && kv.1 ≠ c!"label") then throw "parameter"
+  match lookup (c!"randomize") params with
+  | some v => if v ≠ c!"true" && v ≠ c!"false" then throw "randomize value"
+  | none => if (lookup (c!"seed") params).isSome then throw "seed without randomize"
   if isExternalSel sel then
     if filterRaw.isEmpty then throw "select_one_external without filter"
     if !extLists.contains ln then throw "external list missing"
     if other then throw "or_other on external"
     let pred ← sub filterRaw
     return { ref, tag := tagOf sel, itemset := none, items := [],
-             query := some (S "instance('" ++ ln ++ S "')/root/item[" ++ pred ++ S "]"), other := none }
+             query := some (c!"instance('" ++ ln ++ c!"')/root/item[" ++ pred ++ c!"]"), other := none }
   let known := (lookup ln lists).isSome
   if !known && !isFileExt ext && !isPrev then throw "list not in choices"
-  if sel = S "select all that apply" && !isFileExt ext then
+  if sel = c!"select all that apply" && !isFileExt ext then
     if isPrev && !known then throw "select_multiple from repeat"
     if ((lookup ln lists).getD []).any (fun c => c.name.contains ' ') then throw "choice name with space"
   if other && (!filterRaw.isEmpty || !known) then throw "or_other with filter / without list"
@@ -702,8 +707,8 @@ def selObs (inp : Input) (tbl : List NameInfo) (lists : List (Str × List Choice
     | none => throw "search with unlabeled choice"
     | some items => return { ref, tag := tagOf sel, itemset := none, items, query := none, other := otherObs }
   let filter ← if filterRaw.isEmpty then pure [] else sub filterRaw
-  let seedSub ← match lookup (S "seed") params with
-    | some s => if startsWith s (S "${") then (do let x ← sub s; pure (strip x)) else pure []
+  let seedSub ← match lookup (c!"seed") params with
+    | some s => if startsWith s (c!"${") then (do let x ← sub s; pure (strip x)) else pure []
     | none => pure []
   let prevSub ← if isPrev then (do let x ← sub ln; pure (strip x)) else pure []
   let q : SelIn := { itemset := ln, filter, params, seedSub, prevSub,
